@@ -19,7 +19,12 @@ import importlib
 def build(pid, title, family_modules):
   subs = {}
   for name in family_modules:
-    mod = importlib.import_module(name)
+    try:
+      mod = importlib.import_module(name)
+    except ModuleNotFoundError as e:
+      if e.name == name:      # this family is not built (yet); anything else is a real error
+        continue
+      raise
     sub = getattr(mod, 'CHECKS', {}).get(pid)
     if sub is not None:
       subs[name.rsplit('.', 1)[-1]] = sub
